@@ -5,6 +5,7 @@ import FitModel.DecoderApiListener
 import FitModel.Raw
 import Driver.Util
 import Driver.ValCodec
+import Driver.DecApiShow
 import Driver.Raw
 -- @family decapi Drv.DecApi.hDecApi
 -- @family dechist Drv.DecApi.hDecHist
@@ -18,52 +19,6 @@ implementation's answer (C03: no panic / hang, sticky error; C07: every answer t
 -/
 namespace Drv.DecApi
 open Drv Fit.DecApi Fit.Value
-
-def errName : Err → String
-  | .eof => "eof" | .notFit => "notfit" | .crc => "crc" | .defMissing => "defmissing"
-  | .baseType => "basetype" | .ctx => "ctx" | .other => "other"
-
-def flagsOf (f : DField) : String :=
-  let s := (if f.array then "a" else "") ++ (if f.known then "n" else "") ++ (if f.isBool then "b" else "") ++
-    (if f.expanded then "x" else "")
-  if s.isEmpty then "-" else s
-
-def showField (f : DField) : String := s!"F{f.num}:{hexByte f.bt}:{flagsOf f}:{printValue f.value}"
-
-def showMsg (m : Msg) : String :=
-  "M" ++ toString m.num ++ "h" ++ toString m.header ++ "{" ++ ";".intercalate (m.fields.map showField) ++ "|" ++
-    ";".intercalate (m.devs.map fun d => s!"D{d.idx}.{d.num}:{printValue d.value}") ++ "}"
-
-def showDef (d : MesgDef) : String :=
-  s!"D{d.header}.{d.reserved}.{d.arch}.{d.mesgNum}(" ++ ",".intercalate (d.fields.map fun f => s!"{f.num}.{f.size}.{f.bt}") ++
-    ")(" ++ ",".intercalate (d.devs.map fun f => s!"{f.num}.{f.size}.{f.idx}") ++ ")"
-
-def showEvent : Event → String
-  | .mesgDef d => showDef d
-  | .mesg m => showMsg m
-
-def fnv (h : UInt64) (s : String) : UInt64 :=
-  s.foldl (fun h c => (h ^^^ c.toNat.toUInt64) * 0x100000001b3) h
-
-def digest (items : List String) (verbose : Bool) : String :=
-  if verbose then "[" ++ "&".intercalate items ++ "]"
-  else hexN 16 (items.foldl (fun h it => fnv (fnv h it) "\n") (0xcbf29ce484222325 : UInt64)).toNat
-
-def showHdr (h : Hdr) : String := s!"{h.size}.{h.protoVer}.{h.profileVer}.{h.dataSize}.{h.crc}"
-
-def showOut (verbose : Bool) : Op → Out → String
-  | _, .fit f => s!"ok:{showHdr f.hdr}.{f.crc}:{f.msgs.length}:{digest (f.msgs.map showMsg) verbose}"
-  | _, .header h => "ok:" ++ showHdr h
-  | _, .fileId f =>
-    let pn := if f.productName.isEmpty then "-" else hex f.productName
-    s!"ok:{f.type}.{f.manufacturer}.{f.product}.{f.serial}.{f.timeCreated}.{f.number}.{pn}.{f.unknown}"
-  | _, .done => "ok"
-  | _, .bool b => if b then "t" else "f"
-  | _, .integrity n none => s!"ok:{n}"
-  | _, .integrity n (some e) => s!"err:{errName e}:{n}"
-  | _, .err e => "err:" ++ errName e
-  | _, .panic => "panic"
-  | _, .hang => "hang"
 
 def showTok (verbose : Bool) (op : Op) (r : Out × List Event) : String :=
   let evs := r.2.map showEvent
@@ -123,11 +78,6 @@ def parseFacEntry (s0 : String) : Option FacEntry :=
     pure ⟨mn, fnum, ⟨true, bt, flags.contains 'b', flags.contains 'a', flags.contains 'c', comps⟩⟩
   | _ => none
 
-/-- `factory.StandardFactory()` as the decoder reads it with component expansion off (regenerated table) -/
-def stdFactory : Factory :=
-  Fit.Gen.DecApi.stdFactoryRaw.map fun (m, n, bt, fl) =>
-    ⟨m, n, ⟨true, bt, fl / 2 % 2 == 1, fl % 2 == 1, fl / 4 % 2 == 1, []⟩⟩
-
 def parseFactory (s : String) : Option Factory :=
   if s == "-" then some [] else if s == "std" then some stdFactory else (s.splitOn ";").mapM parseFacEntry
 
@@ -156,7 +106,12 @@ def parseOp (o : Opts) (streams : List (List Nat)) (s : String) : Option Op :=
   | "nxt" => some .next
   | "ci" => some .checkIntegrity
   | _ => do
-    let k ← (stripPrefix? s "rst").bind String.toNat?
+    -- `rst<k>` or `rst<k>/<size>` (Reset with another read buffer size: not observable on the exact-n reader of this model)
+    let spec ← stripPrefix? s "rst"
+    let k ← match spec.splitOn "/" with
+      | [k] => k.toNat?
+      | [k, sz] => if sz.toNat?.isSome then k.toNat? else none
+      | _ => none
     if k < 1 then none
     let b ← streams[k]?
     pure (.reset o b)
